@@ -34,6 +34,16 @@ theorem twoWayResolved_alpha_unmodified (A alpha beta : Option Entry) :
       ∀ q, c.path <+: q → pget alpha q = none ∨ pget alpha q = pget A q :=
   protected_no_loss (reconcile_protects_alpha .twoWayResolved [] A alpha beta A (Or.inl rfl))
 
+/-- Direction: in both one-way modes every planned beta change installs exactly
+the synchronizable part of what alpha holds at the change's path. -/
+theorem oneWay_beta_mirrors_alpha (mode : Mode) (hm : mode = .oneWaySafe ∨ mode = .oneWayReplica)
+    (A alpha beta : Option Entry) :
+    ∀ c ∈ (Reconcile A alpha beta mode).beta, c.new = osync (getPath alpha c.path) := by
+  intro c hc
+  obtain ⟨rel, hp, hn⟩ := reconcile_oneWay_new mode hm [] A alpha beta c hc
+  simp only [List.nil_append] at hp
+  rw [hp]; exact hn
+
 /-- The alpha side is protected in the same way in *every* mode (vacuously in
 the one-way modes, which plan nothing for alpha). -/
 theorem alpha_unmodified_all_modes (mode : Mode) (A alpha beta : Option Entry) :
@@ -51,7 +61,5 @@ example : (Reconcile (some exampleFile1) (some exampleFile2) (some exampleFile1)
 -- TODO theorem readOnly_refuses (DESIGN §8 C02): a one-way alpha endpoint refuses Stage/Transition and
 --   leaves its root unchanged — endpoint-level model (`Model/PollWatch.Endpoint`), belongs to the
 --   session-level streams, not to the reconciliation core.
--- TODO theorem oneWay_beta_mirrors_alpha: in one-way modes every beta change installs `osync (alpha@path)`
---   (checked by the C02 oracle `wrong-direction` on the implementation; not yet proved on the model).
 
 end Mutagen.Properties.C02
